@@ -7,6 +7,7 @@ from typing import Dict, List, Optional, Set
 from ..ctx import Ctx
 from ..model import AnalysisError, Mod, norm, walk_scope, calls_in
 from .opcodes import guards_of
+from ..util import equivalent
 
 
 def reg1_2(ctx: Ctx) -> None:
@@ -186,6 +187,32 @@ def reg4_6(ctx: Ctx) -> None:
             ctx.R.ok("REG-4", "registry[get_code(code, *nested_names)] = func, unconditionally (latest wins)")
         else:
             ctx.R.fail("REG-4", mod, s, "the registry key must be get_code(code, *nested_names) and the value the registered function")
+    # register returns the implementation (it is used as a decorator: returning None would replace the user's function)
+    lastret = reg.body[-1]
+    if isinstance(lastret, ast.Return) and lastret.value is not None and norm(lastret.value) == "func":
+        ctx.R.ok("REG-4", "register returns the registered function (decorator use keeps the name bound)")
+    elif not isinstance(lastret, ast.Return) or lastret.value is None:
+        ctx.R.fail("REG-4", mod, reg, "register must return the registered function: used as a decorator it would otherwise rebind the implementation's name to None", construct="register: return func")
+    else:
+        ctx.R.undecided("REG-4", f"register returns `{norm(lastret.value)}`")
+    # non-decorator form register(target, *names, impl): the last positional argument is the implementation iff it is callable
+    nd = [s_ for s_ in reg.body if isinstance(s_, ast.If) and "callable(" in norm(s_.test)]
+    if len(nd) == 1:
+        at = ["func is None", "nested_names", "callable(nested_names[-1])"]
+        try:
+            okn, cexn = equivalent(nd[0].test, lambda e: e[at[0]] and e[at[1]] and e[at[2]], at)
+        except AnalysisError as ex:
+            okn, cexn = None, str(ex)
+        bodytxt = [norm(x) for x in nd[0].body]
+        if okn and any(b.endswith("nested_names[-1])") or b == "func = nested_names[-1]" for b in bodytxt) and "nested_names = nested_names[:-1]" in bodytxt:
+            ctx.R.ok("REG-4", "register(target, *names, impl): the trailing callable is the implementation and is removed from the names")
+        elif okn is False:
+            ctx.R.fail("REG-4", mod, nd[0], f"the non-decorator form must take the last positional argument as the implementation iff no func= was given, there are extra arguments and the last one is callable; counterexample {cexn}",
+                       construct="register: trailing-callable condition")
+        elif okn:
+            ctx.R.fail("REG-4", mod, nd[0], "the trailing callable must become the implementation (nested_names[-1]) and be dropped from the nested names (nested_names[:-1])", construct="register: trailing-callable handling")
+        else:
+            ctx.R.undecided("REG-4", "trailing-callable condition not understood")
     for c in calls_in(reg, True):
         if isinstance(c.func, ast.Attribute) and norm(c.func.value) == "registry" and c.func.attr == "setdefault":
             ctx.R.fail("REG-4", mod, c, "setdefault keeps the first registration: the documented behaviour is that the latest wins")
@@ -351,6 +378,14 @@ def reg5(ctx: Ctx) -> None:
             ctx.R.fail("REG-5", cm, it, "option `prune` is read but PRUNE is never returned", construct="effect of prune")
         else:
             ctx.R.undecided("REG-5", "PRUNE is returned in a shape that is not recognised")
+    # documented defaults: every flag off, no elaborate callback
+    dflt = {a.arg: norm(d) for a, d in zip(fn.args.kwonlyargs, fn.args.kw_defaults)}
+    want = {"hide": "False", "hide_line": "False", "prune": "False", "elaborate": "None"}
+    for o, w in want.items():
+        if dflt.get(o) == w:
+            ctx.R.ok("REG-5", f"default {o}={w}")
+        else:
+            ctx.R.fail("REG-5", cm, fn, f"the default of option `{o}` must be {w} (found {dflt.get(o)}): every customize() call that does not mention it would switch it on", construct=f"customize default {o}={dflt.get(o)}")
     decs = [norm(d) for d in it.decorator_list]
     if decs == ["elaborate_frame.register(target, *inner_names)"]:
         ctx.R.ok("REG-5", "customize_it is registered for (target, *inner_names)")
